@@ -149,6 +149,34 @@ inline void UCASTLE(const Part& part, const PosFn& f, bool blockersEverywhere) {
     }
 }
 
+/** U-KRAID: one side has king and both rooks at home with every subset of its castling rights; the OTHER side is to move with its king on
+ *  every square (next to the corner rooks in particular) and optionally one more piece of each type on every square: moves that capture or
+ *  attack an unmoved corner rook while its castling right is still held. */
+inline void UKRAID(const Part& part, const PosFn& f) {
+    unsigned long long c = 0;
+    for (int mirror = 0; mirror < 2; mirror++)
+    for (int rights = 0; rights < 4; rights++)
+    for (int ks = 0; ks < 64; ks++)
+    for (int et = 1; et <= 5; et++)          // 1 = no extra piece, 2..5 = Q R B N
+    for (int es = 0; es < 64; es++) {
+        if (et == 1 && es > 0) break;
+        unsigned long long id = c++;
+        if (!part.mine(id)) continue;
+        Board b;
+        b.sq[60] = orc::BK; b.sq[56] = orc::BR; b.sq[63] = orc::BR;
+        if (b.sq[ks]) continue;
+        b.sq[ks] = orc::WK;
+        if (et > 1) { if (b.sq[es]) continue; b.sq[es] = (signed char)orc::mk(true, et); }
+        b.castle = rights << 2; b.wtm = true;      // bit 2 = black long (a8), bit 3 = black short (h8)
+        if (mirror) {
+            Board m;
+            for (int s = 0; s < 64; s++) { int p = b.sq[s]; if (p) m.sq[s ^ 56] = (signed char)(p > 6 ? p - 6 : p + 6); }
+            m.castle = ((b.castle & 3) << 2) | ((b.castle >> 2) & 3); m.wtm = false; b = m;
+        }
+        if (validPlacement(b)) f(b, id);
+    }
+}
+
 /** Seed list (one FEN per line, '#' comments). */
 inline std::vector<Board> readSeeds(const std::string& path) {
     std::vector<Board> out;
@@ -165,9 +193,12 @@ inline std::vector<Board> readSeeds(const std::string& path) {
 
 /** U-PERFT(S,d): every node of the legal move tree of depth d under each seed. f(board, id, depth). */
 inline void UPERFT(const std::vector<Board>& seeds, int depth, const Part& part,
-                   const std::function<void(const Board&, unsigned long long, int)>& f, int splitDepth = 2) {
-    unsigned long long c = 0;
+                   const std::function<void(const Board&, unsigned long long, int)>& f, int splitDepth = 2,
+                   const std::function<bool()>& stop = std::function<bool()>()) {
+    unsigned long long c = 0, visited = 0; bool stopped = false;
     std::function<void(const Board&, int, bool)> rec = [&](const Board& b, int d, bool owned) {
+        if (stopped) return;
+        if (stop && (++visited & 31) == 0 && stop()) { stopped = true; return; }   // deadline: the caller reports the tree as not exhausted
         bool own = owned;
         if (d <= splitDepth) { unsigned long long id = c++; own = part.mine(id); if (own) f(b, id, d); if (d < splitDepth) own = false; }
         else if (owned) f(b, 0, d);
